@@ -214,6 +214,12 @@ func orderRows(cmp func(a, b interface{}) (int, error)) (map[string]string, erro
 		"int64":   {int64(math.MinInt64), int64(-5), int64(-1), int64(0), int64(1), int64(2), int64(1 << 40), int64(math.MaxInt64)},
 		"uint":    {uint(0), uint(1), uint(2), uint(3), uint(16), uint(1 << 40), uint(math.MaxUint64)},
 		"uint64":  {uint64(0), uint64(1), uint64(1<<53 + 1), uint64(1 << 63), uint64(math.MaxUint64)},
+		"int8":    {int8(-128), int8(-10), int8(-9), int8(-1), int8(0), int8(1), int8(9), int8(10), int8(100), int8(127)},
+		"int16":   {int16(-300), int16(-10), int16(-9), int16(0), int16(9), int16(10), int16(99), int16(100), int16(32767)},
+		"int32":   {int32(math.MinInt32), int32(-10), int32(-9), int32(0), int32(2), int32(9), int32(10), int32(100), int32(math.MaxInt32)},
+		"uint8":   {uint8(0), uint8(1), uint8(2), uint8(9), uint8(10), uint8(19), uint8(100), uint8(255)},
+		"uint16":  {uint16(0), uint16(9), uint16(10), uint16(100), uint16(999), uint16(1000), uint16(65535)},
+		"uint32":  {uint32(0), uint32(9), uint32(10), uint32(100), uint32(1 << 31), uint32(math.MaxUint32)},
 		"bytes":   {[]byte{}, []byte{0}, []byte{0, 0}, []byte{1}, []byte{0xff}, []byte("a"), []byte("ab"), []byte("b")},
 		"struct":  {c14Struct{"a", 1}, c14Struct{"a", 2}, c14Struct{"a", 10}, c14Struct{"b", 0}, c14Struct{"", -1}},
 		"userkey": {world.LKey{K: 1, L: 3}, world.LKey{K: 2, L: 0}, world.LKey{K: 2, L: 5}, world.LKey{K: 10, L: 1}},
@@ -276,6 +282,8 @@ func c14RootConfigs() []*world.Config {
 		cs = append(cs, world.BytesCfg(2, []uint8{0, 1, 0, 2}, f, "none"))
 		cs = append(cs, world.StructCfg(2, []uint8{0, 1, 0, 2}, f, "none"))
 		cs = append(cs, world.Uint64Cfg(2, []uint64{0, 2, 4, 1<<53 + 1, 1 << 63}, f, "none"))
+		cs = append(cs, world.Int32Cfg(2, []int32{-2, 9, 10, 100, 4, 16}, f, "none"))
+		cs = append(cs, world.Uint8Cfg(2, []uint8{2, 10, 100, 9, 16, 200}, f, "none"))
 		cs = append(cs, world.IntCfg(4, []int{1, 2, 4, 8, 16}, []interface{}{world.SVal{Asdf: "a", Q: true}}, world.SVal{}, f, "none"))
 		if f == B {
 			// nil values (ValuesLike=nil, registered types): the element body is the marshaler's output for nil
